@@ -503,12 +503,13 @@ theorem C18_getV_agrees {h : Heap} {t : Ref} {p : Path} {x : Ref} (hg : get h t 
 
 /-! ## C18_key_flavour — `Key.Index(i)` and the plain int `i` as path elements
 
-`Index` subclasses `int` (`Index(i) == i`, same hash), so a dict cannot tell them apart and `items()` lists a
-dict child under whatever key OBJECT the dict holds.  The model stores dict keys up to `==` and lists the normal
-form; the correspondence reports an element of a listed path that was met as a dict key in that normal form too
-(`canon_items_path` in harness/props/c18.py — wp-C18F removed a false alarm there).  These theorems say that
-nothing the property talks about depends on that choice: `PKey.flav` maps `Index(i)` to `i` and is the identity
-on every other key; two paths have the same *normal form* when `p.map flav = q.map flav`. -/
+`Index` subclasses `int` (`Index(i) == i`, same hash), so a dict lookup cannot tell them apart, but a dict keeps
+the key OBJECT it was first given and `items()` lists that object.  Since wp-C18F the model stores key objects
+(`DKey.idx` vs `DKey.int`, lookups compare `DKey.norm`), so the correspondence compares the flavour of every dict
+key and of every element of a listed path (before, it had to canonicalise them, and a hole in that
+canonicalisation was a thorough-tier false alarm).  These theorems say that nothing the property talks about
+depends on the flavour: `PKey.flav` maps `Index(i)` to `i` and is the identity on every other key; two paths have
+the same *normal form* when `p.map flav = q.map flav`. -/
 
 /-- **Reads cannot tell `Index(i)` from `i`**: two paths of equal normal form read the same — the same object
 or the same error — through the reference-valued `__get` and through the complete one (paths into ndarrays);
@@ -532,36 +533,47 @@ theorem C18_key_flavour_items {h : Heap} (hg : GoodDicts h) {root : Ref} {n : No
   have hq : get h root q = .ok x := by rw [get_congr_flav h root e]; exact hp
   exact ⟨hq, C18_getV_agrees hq⟩
 
-/-- **On a path that exists, a set cannot tell them apart either** — copying or in place, strict or not, every
-heap: same resulting heap, same result or same error.  `Ex h t p`: every key of `p` but the last addresses a
-stored child (the last may be fresh: a new dict key, the append index; whatever follows SELF / SKIP is ignored;
-Literal keys are the dict keys they are for `set`; below an ndarray anything goes — paths INTO arrays included). -/
-theorem C18_key_flavour_set (strict inPlace : Bool) (v : Ref) {h : Heap} {t : Ref} {p q : Path} (x : Ex h t p)
+/-- **On a path that exists, a copying set cannot tell them apart either** — strict or not, every heap: same
+resulting heap (the key objects held by every dict included), same result or same error.  `Ex h t p`: every key
+of `p` but the last addresses a stored child; the last may be the append index of a sequence, but where it
+addresses a dict it is a key already (a FRESH dict key is stored as the object given — the second witness below);
+whatever follows SELF / SKIP is ignored; Literal keys are the dict keys they are for `set`; below an ndarray
+anything goes — paths INTO arrays included. -/
+theorem C18_key_flavour_set (strict : Bool) (v : Ref) {h : Heap} {t : Ref} {p q : Path} (x : Ex h t p)
     (e : q.map PKey.flav = p.map PKey.flav) :
-    setPath strict inPlace h t q v = setPath strict inPlace h t p v :=
-  setPath_congr_flav strict inPlace v x e
+    setPath strict false h t q v = setPath strict false h t p v :=
+  setPath_congr_flav strict v x e
 
-/-- … and for every path listed by `items()`: a set through any spelling of a listed path is the same set. -/
-theorem C18_key_flavour_items_set (strict inPlace : Bool) (v : Ref) {h : Heap} (hg : GoodDicts h) {root : Ref}
+/-- … in particular for every path listed by `items()`: a copying set through any spelling of a listed path
+is the same set. -/
+theorem C18_key_flavour_items_set (strict : Bool) (v : Ref) {h : Heap} (hg : GoodDicts h) {root : Ref}
     {n : Node} (hn : h[root]? = some n) (hc : n.children ≠ []) {kvs : List (Path × Ref)}
     (hi : items h root = .ok kvs) {p : Path} {x : Ref} (hm : (p, x) ∈ kvs) {q : Path}
     (e : q.map PKey.flav = p.map PKey.flav) :
-    setPath strict inPlace h root q v = setPath strict inPlace h root p v :=
-  setPath_congr_flav strict inPlace v (Ex.of_leafWalk hg ((C18_items hg hn hc hi).2.2 p x hm).1) e
+    setPath strict false h root q v = setPath strict false h root p v :=
+  setPath_congr_flav strict v (Ex.of_leafWalk hg ((C18_items hg hn hc hi).2.2 p x hm).1) e
 
-/-- In particular for every path of plain keys that READS: `copy_and_set` through any spelling of it. -/
+/-- … and for every path of plain keys that READS: `copy_and_set` through any spelling of it. -/
 theorem C18_key_flavour_set_readable (strict : Bool) (v : Ref) {h : Heap} {t x : Ref} {p q : Path}
     (hp : PlainSelf p) (hg : get h t p = .ok x) (e : q.map PKey.flav = p.map PKey.flav) :
     copyAndSet strict h t (.path q) v = copyAndSet strict h t (.path p) v := by
-  simp only [copyAndSet, setItem, setPath_congr_flav strict false v (Ex.of_get p t x hp hg) e]
+  simp only [copyAndSet, setItem, setPath_congr_flav strict v (Ex.of_get p t x hp hg) e]
 
-/-- Witness (a test, `decide`): on a FRESH path the flavour is NOT invisible — `_default_tree` builds a list for
-`Index(0)` and a dict for `0` (tree.py:276-283) — so `Ex` cannot be dropped from `C18_key_flavour_set`, and the
-correspondence keeps `Index` and `int` apart everywhere except at dict positions of listed paths. -/
+/-- Witnesses (tests, `decide`): where the flavour IS visible, so `Ex` cannot be dropped from
+`C18_key_flavour_set`.  (1) a FRESH path: `_default_tree` builds a list for `Index(0)` and a dict for `0`
+(tree.py:276-283); (2) a FRESH key of an existing dict is stored as the object given: `{'a': .., Index(1): v}`
+vs `{'a': .., 1: v}` — and `items()` lists it as stored; (3) an EXISTING entry keeps its key object. -/
 theorem C18_key_flavour_fresh_witness :
     (setPath false false #[.null, .leaf (.int 1)] 0 [.idx 0] 1).1[2]? = some (.list [1]) ∧
     (setPath false false #[.null, .leaf (.int 1)] 0 [.int 0] 1).1[2]? = some (.dict [(.int 0, 1)]) ∧
-    [PKey.idx 0].map PKey.flav = [PKey.int 0].map PKey.flav := by decide
+    [PKey.idx 0].map PKey.flav = [PKey.int 0].map PKey.flav ∧
+    (setPath false false #[.dict [(.str "a", 1)], .leaf (.int 1)] 0 [.idx 1] 1).1[2]? =
+      some (.dict [(.str "a", 1), (.idx 1, 1)]) ∧
+    (setPath false false #[.dict [(.str "a", 1)], .leaf (.int 1)] 0 [.int 1] 1).1[2]? =
+      some (.dict [(.str "a", 1), (.int 1, 1)]) ∧
+    items #[.dict [(.str "a", 1), (.idx 1, 1)], .leaf (.int 1)] 0 = .ok [([.str "a"], 1), ([.idx 1], 1)] ∧
+    (setPath false false #[.dict [(.idx 1, 1)], .leaf (.int 1)] 0 [.int 1] 1).1[2]? = some (.dict [(.idx 1, 1)]) :=
+  ⟨by decide, by decide, by decide, by decide, by decide, rfl, by decide⟩
 
 /-! ## non-vacuity: a concrete heap satisfies every hypothesis used above (tests, not theorems) -/
 
@@ -639,8 +651,10 @@ end Examples
 
 -- C18_key_flavour: `Ex` holds of a readable path and of a path whose last key is fresh
 example : Ex h0 3 [.idx 0, .str "a"] := Ex.of_get _ 3 0 (by simp [PlainSelf, PKey.isPlain]) rfl
-example : Ex h0 3 [.int 0, .str "fresh"] :=
-  .step (n := .list [2, 0]) rfl rfl (.last (n := .dict [(.str "a", 0), (.str "b", 1)]) _ rfl (by simp))
+example : Ex h0 3 [.int 0, .str "b"] :=
+  .step (n := .list [2, 0]) rfl rfl (.last (n := .dict [(.str "a", 0), (.str "b", 1)]) _ rfl (by simp)
+    (fun es e => by cases e; exact ⟨1, rfl⟩))
+example : Ex h0 3 [.int 2] := .last (n := .list [2, 0]) _ rfl (by simp) (fun es e => by cases e)   -- the append index
 example : [PKey.int 0, .str "a"].map PKey.flav = [PKey.idx 0, .str "a"].map PKey.flav := rfl
 example : Ex hA 3 [.str "a", .int 1, .idx 2, .str "anything"] :=
   .step (n := .dict [(.str "a", 1), (.str "row", 2)]) rfl rfl (.nd _ _ (b := 0) (off := 0) (shape := [2, 3]) rfl)
